@@ -115,7 +115,7 @@ CHECKS = {
             "(Kernels/Names.v) and all fourteen verdicts are proved invariant under every permutation of the SAN dNSNames; lookup by OID in a duplicate-free extension list is order independent; the pre-repair evaluation is refuted by a witness; the four lints that relate the subject common name(s) to the SAN entries "
             "(exact match, case-insensitive match, redacted names, EV wildcard; Kernels/CnSan.v) are modelled in full, proved invariant under every permutation of the dNSNames and addresses (status, and details of the exact-match lint) and the exact-match rule is characterised (c17_cn_exact_spec); the thirteen subject-attribute length lints (Kernels/SubjLen.v, one table-driven model with Go's character counting) are invariant under the order of a repeated attribute's values and report exactly when some value exceeds the limit. "
             "Also modelled in full with a permutation theorem each: the Tor service-descriptor lint (status = one order-free conjunction, c17_tor_spec / c17_tor_perm), the two empty-general-name walkers together with zcrypto's DER tag/length reader (codec round trip read_enc_tlv; c17_empty_name_spec / _perm), "
-            "fifteen lints over the AIA / CDP URL lists (c17_url_lints_perm) and twenty-three subject-attribute presence lints (c17_presence_lints_perm). "
+            "fifteen lints over the AIA / CDP URL lists (c17_url_lints_perm), twenty-three subject-attribute presence lints (c17_presence_lints_perm), five EV presence lints, eight more subject / validity bodies, the form lints of nameConstraints (c17_nc_form_perm) and the duplicate-policy lint (c17_policy_duplicate_perm). "
             "Every modelled-lint stream carries a non-vacuity obligation: each lint must show each of its verdicts somewhere in the stream. Explored: all other lints - generated "
             "certificates with 2-4 SAN names of every type in every order, zoo certificates with up to 257 names reversed / rotated / sorted / shuffled, and corpus certificates with SAN and extension lists reversed/shuffled, all status vectors compared.",
             "DESIGN.md 5/C17", "Re-ordering invalidates the signature: SelfSigned/ValidationLevel are carried over from the original when comparing."),
@@ -123,7 +123,7 @@ CHECKS = {
             "Proof: the RFC/BR DNS-label variants agree whenever the common name is empty, an IP or one of the SAN names; the SAN and IAN URI-host rules (each modelled as written, url.Parse/IsFQDNOrIP as oracles) agree on every URI list - "
             "and the pre-repair IAN copy is refuted; a limit lint's error implies its stricter companion's finding for every measured value; a mirror rule applied to equal fields gives equal answers. The other copies are tied to the code "
             "only through the pair monitor: generated SAN=IAN, issuer=subject, both-scope, boundary-validity and name-length certificates plus the corpus where a pair's precondition holds; every pair must be exercised.",
-            "DESIGN.md 5/C20", "Most pair members are not modelled individually; agreement for them is explored, not proved. Modelled in full since session 5: the URL-list families (twins, strict => legacy, code-signing CDP => TLS CDP, and a witness that scheme http is not the prefix http://), the subject-attribute must / must-not companions, and nineteen basicConstraints / keyUsage / extKeyUsage lints with their applicability (companion theorems c20_cert_sign_rules_agree, c20_ku_missing_rules, c20_root_ku_critical_same), each tied by a stream."),
+            "DESIGN.md 5/C20", "Most pair members are not modelled individually; agreement for them is explored, not proved. Modelled in full since session 5: the URL-list families (twins, strict => legacy, code-signing CDP => TLS CDP, and a witness that scheme http is not the prefix http://), the subject-attribute must / must-not companions, and nineteen basicConstraints / keyUsage / extKeyUsage lints with their applicability (companion theorems c20_cert_sign_rules_agree, c20_ku_missing_rules, c20_root_ku_critical_same), twenty criticality lints and ten extension-presence lints as table-driven rules (no row demands the opposite marking of another; a marking that passes all twenty exists; the RFC / BR recommendations about subjectKeyIdentifier in subscriber certificates are shown to be opposite), seven fixed-field lints (serial longer than 20 octets exactly from 2^159), six name-constraints form lints (the maximum rule as written skips the permitted rfc822Names - an observation, DESIGN.md 13.6), four certificatePolicies lints, and eleven key-usage bodies compared with the code on EVERY value of the nine key-usage bits (their theorems are proved by sweep of the whole domain), each tied by a stream."),
     "C02": (True, "Coq theorems (fatal-origin for the framework; panic-freedom of 11 rule bodies / helpers modelled with explicit out-of-range outcomes; result-type discipline of the QC-statement parser) + in-Coq correspondence of those bodies + kernel-checked inclusion of the regenerated panic-site inventory (compiler bounds-check report + go/ssa) in an audited list + directed hostile inputs, the certificate zoo and structure-aware mutation through the three entry points",
             "Proof (partial): a fatal result of a certificate lint is the body's own decision, a configuration error, or the report of a recovered panic, so panic-free lint code never yields the panic report; CRL/OCSP linting returns iff nothing panics; "
             "the explicitText control-character walker never indexes out of range for any byte string (and without its bound check it does on [0xC2], the defect that was repaired); the three GeneralizedTime lints, the three keyUsage-encoding lints, "
